@@ -42,6 +42,7 @@
 #include <unistd.h>
 
 #include "quill/sinks/RotatingFileSink.h"
+#include "quill/sinks/RotatingJsonFileSink.h"
 
 using namespace quill;
 using Cfg = RotatingFileSinkConfig;
@@ -97,6 +98,14 @@ struct StartCfg
   int hh{0}, mm{0};
   uint64_t ts{0};
   int spell{0}; // how the path handed to the constructor is spelled (see the head of this file); not part of the model
+  char scheme{0}; // naming scheme of this start (0 = the scheme of the case line); a change makes the case "mixed": oracle only
+};
+
+// what the harness reads of either sink type (RotatingSink<FileSink> / RotatingSink<JsonFileSink>)
+struct SinkView
+{
+  uint64_t next{0}, open{0}, fsz{0};
+  std::vector<std::string> dq; // _created_files back..front, rendered by the sink's own _get_filename
 };
 
 static char const* const SPELL_NAMES[] = {"canon", "rel", "dot", "updown", "link", "trail", "bare"};
@@ -117,7 +126,18 @@ struct Case
   std::string parent, base; // dir = parent + "/" + base
   std::string link;         // symlink next to the scratch directory pointing at it (created on first use)
   bool link_made{false};
-  std::unique_ptr<RotatingFileSink> sink;
+  std::unique_ptr<RotatingFileSink> fsink;
+  std::unique_ptr<RotatingJsonFileSink> jsink;
+  bool sink{false}; // a sink object is alive
+  char sinkk{'F'};  // F = RotatingFileSink, J = RotatingJsonFileSink (oracle only: the model has one size per statement)
+  char fa{'N'};     // FilenameAppendOption: N none, D StartDate, T StartDateTime, C custom "_%Y%m" (oracle only: wall-clock name)
+  std::string bname{"log.log"}; // base file name handed to the constructor
+  std::string abase{"log.log"}, S{"log"}, E{".log"}; // the name the sink really writes to (= bname unless fa), its stem / extension
+  char scheme0{'I'};
+  bool mixed{false};      // the naming scheme changed at a restart: the scheme's name order is undefined, scheme-independent oracles only
+  bool blind{false};      // a start scanned the directory with a filter that cannot see the sink's own rotated files (F28 / F29 classes)
+  bool base_moved{false}; // fa: the wall clock changed the base name between two starts (midnight / next second): oracles off
+  std::vector<std::unique_ptr<std::string>> fmts; // JSON: message formats must outlive the call
   StartCfg cfg;
   std::ostringstream out;
   long off_min{0}, off_max{0};
@@ -225,24 +245,63 @@ struct Case
     if (chdir((sp == 6 ? dir : parent).c_str()) != 0) { perror("chdir"); exit(2); }
     switch (sp)
     {
-    case 1: return base + "/log.log";
-    case 2: return "./" + base + "/log.log";
-    case 3: return base + "/../" + base + "/log.log";
+    case 1: return base + "/" + bname;
+    case 2: return "./" + base + "/" + bname;
+    case 3: return base + "/../" + base + "/" + bname;
     case 4:
       if (!link_made)
       {
         if (symlink(dir.c_str(), link.c_str()) != 0) { perror("symlink"); exit(2); }
         link_made = true;
       }
-      return link + "/log.log";
-    case 5: return dir + "/./log.log";
-    case 6: return "log.log";
-    default: return dir + "/log.log";
+      return link + "/" + bname;
+    case 5: return dir + "/./" + bname;
+    case 6: return bname;
+    default: return dir + "/" + bname;
     }
   }
+  void drop_sink() { fsink.reset(); jsink.reset(); sink = false; }
+  template <typename F> void with_sink(F&& f) { if (fsink) f(*fsink); else if (jsink) f(*jsink); }
+  SinkView view()
+  {
+    SinkView v;
+    with_sink([&](auto& s) {
+      v.next = s._next_rotation_time; v.open = s._open_file_timestamp; v.fsz = s._file_size;
+      using ST = std::decay_t<decltype(s)>;
+      for (auto it = s._created_files.rbegin(); it != s._created_files.rend(); ++it)
+        v.dq.push_back(ST::_get_filename(it->base_filename, it->index, it->date_time).filename().string());
+    });
+    return v;
+  }
+  void set_base(std::string const& b)
+  {
+    abase = b;
+    fs::path const pth{b};
+    S = pth.stem().string();
+    E = pth.extension().string();
+  }
+  // how the directory scan of _clean_and_recover_files sees the sink's own rotated files: "ext" = an ordinary extension,
+  // "dots" = further dots in the stem, "trail" = trailing dot; "noext" / "hidden" = empty extension (the scan's extension
+  // filter then rejects every rotated file: finding F28)
+  std::string base_class() const
+  {
+    fs::path const pth{bname};
+    if (pth.extension().string().empty()) return bname[0] == '.' ? "hidden" : "noext";
+    if (pth.extension().string() == ".") return "trail";
+    std::string const st = pth.stem().string();
+    auto const ld = st.rfind('.');
+    if (ld == std::string::npos) return "ext";
+    // "x.1.log": the current file itself passes the scan filter ("x.1." + "log") and parses as rotated file #1 of "x.log"
+    // (finding F31) — the stem's last component is a number
+    std::string const last = st.substr(ld + 1);
+    bool num = !last.empty();
+    for (char ch : last) num = num && ch >= '0' && ch <= '9';
+    return num ? "numstem" : "dots";
+  }
+  bool scan_blind() const { return fa != 'N' || fs::path{bname}.extension().string().empty(); }
   void remove_dir()
   {
-    sink.reset();
+    drop_sink();
     if (dir.empty()) return;
     if (chdir(parent.c_str()) != 0) { perror("chdir"); exit(2); }
     if (link_made) { unlink(link.c_str()); link_made = false; }
@@ -274,7 +333,33 @@ struct Case
       std::ifstream in(dir + "/" + n, std::ios::binary);
       std::string data((std::istreambuf_iterator<char>(in)), std::istreambuf_iterator<char>());
       f.bytes = data.size();
-      if (is_family(n))
+      if (is_family(n) && sinkk == 'J')
+      {
+        // one object per line: {"timestamp":"…",…,"message":"#<id>:x*"}
+        size_t i = 0;
+        while (i < data.size())
+        {
+          size_t const nl = data.find('\n', i);
+          if (nl == std::string::npos) { f.parsed = false; break; }
+          std::string const ln = data.substr(i, nl - i);
+          i = nl + 1;
+          auto const m = ln.find("\"message\":\"#");
+          if (ln.compare(0, 14, "{\"timestamp\":\"") != 0 || m == std::string::npos || ln.size() < 2 || ln.compare(ln.size() - 2, 2, "\"}") != 0)
+          { f.parsed = false; break; }
+          size_t j = m + 12;
+          uint64_t id = 0;
+          size_t nd = 0;
+          while (j < ln.size() && ln[j] >= '0' && ln[j] <= '9') { id = id * 10 + static_cast<uint64_t>(ln[j] - '0'); ++j; ++nd; }
+          size_t const xs = j;
+          if (nd == 0 || j >= ln.size() || ln[j] != ':') { f.parsed = false; break; }
+          ++j;
+          while (j < ln.size() && ln[j] == 'x') ++j;
+          auto it = recs.find(id);
+          if (j + 2 != ln.size() || it == recs.end() || it->second.size != (j - xs) + nd + 2) f.parsed = false;
+          f.ids.push_back(id);
+        }
+      }
+      else if (is_family(n))
       {
         size_t i = 0;
         while (i < data.size())
@@ -303,40 +388,48 @@ struct Case
     return v;
   }
 
-  static bool is_family(std::string const& n)
+  bool is_family(std::string const& n) const
   {
-    // log.log, log.<digits>.log, log.<date[_time]>.log, log.<date[_time]>.<digits>.log
-    if (n == "log.log") return true;
-    if (n.size() < 9 || n.compare(0, 4, "log.") != 0 || n.compare(n.size() - 4, 4, ".log") != 0) return false;
-    std::string mid = n.substr(4, n.size() - 8);
+    // <S><E>, <S>.<digits><E>, <S>.<date[_time]><E>, <S>.<date[_time]>.<digits><E>, and with an empty extension <S>.<digits>.<date>
+    if (n == abase) return true;
+    std::string const pre = S + ".";
+    if (n.size() < pre.size() + E.size() + 1 || n.compare(0, pre.size(), pre) != 0) return false;
+    if (!E.empty() && n.compare(n.size() - E.size(), E.size(), E) != 0) return false;
+    std::string mid = n.substr(pre.size(), n.size() - pre.size() - E.size());
     if (mid.empty() || mid[0] == '.' || mid.back() == '.') return false;
     for (char c : mid) if (!((c >= '0' && c <= '9') || c == '.' || c == '_')) return false;
     return true;
   }
   // (suffix, index) of a family file; the current file is ("", 0)
-  static std::pair<std::string, uint64_t> parse_family(std::string const& n, char scheme)
+  std::pair<std::string, uint64_t> parse_family(std::string const& n, char sch) const
   {
-    if (n == "log.log") return {"", 0};
-    std::string mid = n.substr(4, n.size() - 8);
-    if (scheme == 'I') return {"", std::stoull(mid)};
-    auto const dot = mid.find('.');
-    if (dot == std::string::npos) return {mid, 0};
-    return {mid.substr(0, dot), std::stoull(mid.substr(dot + 1))};
+    if (n == abase) return {"", 0};
+    std::string mid = n.substr(S.size() + 1, n.size() - S.size() - 1 - E.size());
+    if (sch == 'I' && mid.find('.') == std::string::npos && mid.find('_') == std::string::npos) return {"", std::stoull(mid)};
+    // tokens: a token of 8 or more characters is the date[_time], a shorter one the index (either order: with an empty
+    // extension the sink renders <S>.<index>.<date>)
+    std::pair<std::string, uint64_t> r{"", 0};
+    size_t b = 0;
+    while (b <= mid.size())
+    {
+      size_t e = mid.find('.', b);
+      if (e == std::string::npos) e = mid.size();
+      std::string const tok = mid.substr(b, e - b);
+      if (tok.size() >= 8 || tok.find('_') != std::string::npos) r.first = tok;
+      else if (!tok.empty()) r.second = std::stoull(tok);
+      b = e + 1;
+    }
+    return r;
   }
 
   std::string state_string()
   {
+    SinkView const sv = view();
     std::ostringstream s;
     s << "next=";
-    if (cfg.freq == 'N') s << "-"; else s << sink->_next_rotation_time;
-    s << " open=" << sink->_open_file_timestamp << " fsz=" << sink->_file_size << " dq=";
-    bool first = true;
-    for (auto it = sink->_created_files.rbegin(); it != sink->_created_files.rend(); ++it)
-    {
-      if (!first) s << ",";
-      first = false;
-      s << RotatingFileSink::_get_filename(it->base_filename, it->index, it->date_time).filename().string();
-    }
+    if (cfg.freq == 'N') s << "-"; else s << sv.next;
+    s << " open=" << sv.open << " fsz=" << sv.fsz << " dq=";
+    for (size_t i = 0; i < sv.dq.size(); ++i) s << (i ? "," : "") << sv.dq[i];
     return s.str();
   }
   static std::string listing_string(std::vector<FileView> const& v)
@@ -355,30 +448,33 @@ struct Case
 
   void oracle(std::string const& kind, std::string const& detail)
   {
+    if (base_moved) return;
     ++g_oracle_hits;
     ++g_stats["oracle_" + kind];
     out << "ORACLE " << kind << " case=" << id << " op=" << opno << " scheme=" << scheme << " nonmono=" << (nonmono ? 1 : 0)
         << " arestarts=" << append_restarts << " unrecovered=" << (unrecovered ? 1 : 0) << " dst=" << (off_min != off_max ? 1 : 0)
-        << " overstart=" << (overstart ? 1 : 0) << " spell=" << SPELL_NAMES[cfg.spell] << " " << detail << "\n";
+        << " overstart=" << (overstart ? 1 : 0) << " spell=" << SPELL_NAMES[cfg.spell] << " base=" << base_class() << " sink=" << sinkk
+        << " fa=" << fa << " mixed=" << (mixed ? 1 : 0) << " blind=" << (blind ? 1 : 0) << " " << detail << "\n";
   }
 
   // ordering of the family files as the naming scheme reads them, oldest first
   std::vector<FileView const*> scheme_order(std::vector<FileView> const& v)
   {
     std::vector<FileView const*> fam;
-    for (auto const& f : v) if (is_family(f.name) && f.name != "log.log") fam.push_back(&f);
+    for (auto const& f : v) if (is_family(f.name) && f.name != abase) fam.push_back(&f);
     std::sort(fam.begin(), fam.end(), [this](FileView const* a, FileView const* b) {
       auto const pa = parse_family(a->name, scheme);
       auto const pb = parse_family(b->name, scheme);
       if (pa.first != pb.first) return pa.first < pb.first; // earlier date is older
       return pa.second > pb.second;                         // larger index is older
     });
-    for (auto const& f : v) if (f.name == "log.log") fam.push_back(&f);
+    for (auto const& f : v) if (f.name == abase) fam.push_back(&f);
     return fam;
   }
 
   // -------- the property checks that hold after every operation (C14) --------
-  void check_c14(std::vector<FileView> const& v, uint64_t rotated_before, bool after_write, uint64_t wid, bool rotated)
+  void check_c14(std::vector<FileView> const& v, uint64_t rotated_before, bool after_write, uint64_t wid, bool rotated,
+                 std::vector<FileView> const* before = nullptr)
   {
     std::map<uint64_t, int> seen;
     for (auto const& f : v)
@@ -389,6 +485,39 @@ struct Case
     }
     for (auto const& kv : seen)
       if (kv.second > 1) { oracle("dup-id", "id=" + std::to_string(kv.first) + " is in " + std::to_string(kv.second) + " places"); break; }
+    // "otherwise rotation stops and nothing is deleted": with overwrite_rolled_files off no statement of the current
+    // sequence (since the last "w"-mode start) that was on disk before the operation may be gone after it — whatever the
+    // operation: a write, or a start in append mode with any other configuration (a lowered max_backup_files included)
+    if (before && !cfg.ow)
+    {
+      std::set<uint64_t> const epoch_ids(written.begin() + static_cast<long>(epoch_begin), written.end());
+      for (auto const& f : *before)
+      {
+        if (!is_family(f.name)) continue;
+        bool hit = false;
+        for (uint64_t i : f.ids)
+          if (epoch_ids.count(i) && !seen.count(i))
+          {
+            oracle("ow-off-deleted", "id=" + std::to_string(i) + " (file " + f.name + " before the operation) is gone although overwrite_rolled_files is off" +
+                                       (after_write ? "" : ": deleted by the start itself"));
+            hit = true;
+            break;
+          }
+        if (hit) break;
+      }
+    }
+    if (mixed)
+    {
+      // the naming scheme changed during the life of the directory: "as the naming scheme orders them" is undefined
+      if (after_write)
+      {
+        FileView const* cur = nullptr;
+        for (auto const& f : v) if (f.name == abase) cur = &f;
+        if (!cur || cur->ids.empty() || cur->ids.back() != wid || seen[wid] != 1)
+          oracle("not-in-cur", "id=" + std::to_string(wid) + " is not the last statement of the current file (and only there)");
+      }
+      return;
+    }
     // order by the naming scheme
     auto const fam = scheme_order(v);
     {
@@ -439,11 +568,11 @@ struct Case
     if (after_write)
     {
       FileView const* cur = nullptr;
-      for (auto const& f : v) if (f.name == "log.log") cur = &f;
+      for (auto const& f : v) if (f.name == abase) cur = &f;
       if (!cur || cur->ids.empty() || cur->ids.back() != wid || seen[wid] != 1)
         oracle("not-in-cur", "id=" + std::to_string(wid) + " is not the last statement of the current file (and only there)");
       else if (cfg.limit != 0 && cur->bytes > cfg.limit && cur->ids.size() > 1 && !(cfg.ow == false && count_family(v) >= cfg.maxb))
-        oracle("over-limit", "log.log holds " + std::to_string(cur->ids.size()) + " statements, " + std::to_string(cur->bytes) +
+        oracle("over-limit", abase + " holds " + std::to_string(cur->ids.size()) + " statements, " + std::to_string(cur->bytes) +
                                " bytes > limit " + std::to_string(cfg.limit));
     }
   }
@@ -459,17 +588,17 @@ struct Case
     uint64_t n = 0;
     for (auto const& f : v)
     {
-      if (!is_family(f.name) || f.name == "log.log") continue;
+      if (!is_family(f.name) || f.name == abase) continue;
       auto it = stale.find(f.name);
       if (it != stale.end() && it->second == ids_string(f)) continue;
       ++n;
     }
     return n;
   }
-  static uint64_t count_family(std::vector<FileView> const& v)
+  uint64_t count_family(std::vector<FileView> const& v)
   {
     uint64_t n = 0;
-    for (auto const& f : v) if (is_family(f.name) && f.name != "log.log") ++n;
+    for (auto const& f : v) if (is_family(f.name) && f.name != abase) ++n;
     return n;
   }
 
@@ -478,7 +607,7 @@ struct Case
     if (scheme == 'I') return;
     for (auto const& f : v)
     {
-      if (!is_family(f.name) || f.name == "log.log" || f.ids.empty()) continue;
+      if (!is_family(f.name) || f.name == abase || f.ids.empty()) continue;
       auto it = open_ts_of_first.find(f.ids.front());
       if (it == open_ts_of_first.end()) continue;
       std::string const want = fmt_time(it->second, scheme == 'D' ? "%Y%m%d" : "%Y%m%d_%H%M%S");
@@ -497,15 +626,15 @@ struct Case
   {
     ++opno;
     std::string name;
-    if (k == 'F') name = "log." + std::to_string(n) + ".log";
-    else if (k == 'J') name = "log.x" + std::to_string(n) + ".log";
+    if (k == 'F') name = RotatingFileSink::_get_filename(fs::path{abase}, static_cast<uint32_t>(n), std::string{}).string();
+    else if (k == 'J') name = S + ".x" + std::to_string(n) + E;
     else
     {
       switch (n % 4)
       {
-      case 0: name = "other." + std::to_string(n / 4 + 1) + ".log"; break;
-      case 1: name = "log." + std::to_string(n / 4 + 1) + ".txt"; break;
-      case 2: name = "logx." + std::to_string(n / 4 + 1) + ".log"; break;
+      case 0: name = "other." + std::to_string(n / 4 + 1) + E; break;
+      case 1: name = S + "." + std::to_string(n / 4 + 1) + ".txt"; break;
+      case 2: name = S + "x." + std::to_string(n / 4 + 1) + E; break;
       default: name = "notes" + std::to_string(n / 4) + ".md"; break;
       }
     }
@@ -521,10 +650,12 @@ struct Case
   void do_start(StartCfg const& c)
   {
     ++opno;
-    sink.reset();
+    drop_sink();
     auto const before = list_dir();
     uint64_t const rotated_before = count_rotated(before);
     cfg = c;
+    if (cfg.scheme == 0) cfg.scheme = scheme;
+    if (cfg.scheme != scheme) { mixed = true; scheme = cfg.scheme; ++g_stats["start_changes_scheme"]; }
     note_offset(c.ts);
     Cfg q;
     bool threw = false;
@@ -548,7 +679,20 @@ struct Case
       else if (c.freq == 'H' || c.freq == 'M') q.set_rotation_frequency_and_interval(c.freq, c.iv);
       auto const st = std::chrono::system_clock::time_point{
         std::chrono::duration_cast<std::chrono::system_clock::duration>(std::chrono::nanoseconds{static_cast<int64_t>(c.ts)})};
-      sink = std::make_unique<RotatingFileSink>(fs::path{spelled_path(c.spell)}, q, FileEventNotifier{}, st);
+      if (fa == 'D') q.set_filename_append_option(FilenameAppendOption::StartDate);
+      else if (fa == 'T') q.set_filename_append_option(FilenameAppendOption::StartDateTime);
+      else if (fa == 'C') q.set_filename_append_option(FilenameAppendOption::StartCustomTimestampFormat, "_%Y%m");
+      if (sinkk == 'J') jsink = std::make_unique<RotatingJsonFileSink>(fs::path{spelled_path(c.spell)}, q, FileEventNotifier{}, st);
+      else fsink = std::make_unique<RotatingFileSink>(fs::path{spelled_path(c.spell)}, q, FileEventNotifier{}, st);
+      sink = true;
+      std::string actual;
+      with_sink([&](auto& s) { actual = s.get_filename().filename().string(); });
+      if (actual != abase)
+      {
+        // FilenameAppendOption: the name carries the wall-clock date of the start (the start_time argument is not used for it)
+        if (run > 0) { base_moved = true; ++g_stats["fa_base_moved"]; }
+        set_base(actual);
+      }
     }
     catch (std::exception const& e)
     {
@@ -556,6 +700,7 @@ struct Case
       out << "NOTE start threw: " << e.what() << "\n";
     }
     ++run;
+    if (scan_blind() && count_family(before) > 0 && (c.mode == 'a' || c.clean) && scheme != 'T') blind = true;
     if (c.mode == 'w') { epoch_begin = written.size(); unrecovered = false; }
     else
     {
@@ -563,7 +708,7 @@ struct Case
       std::string const today = fmt_time(c.ts, "%Y%m%d");
       for (auto const& f : before)
       {
-        if (!is_family(f.name) || f.name == "log.log") continue;
+        if (!is_family(f.name) || f.name == abase) continue;
         if (scheme == 'T' || (scheme == 'D' && parse_family(f.name, scheme).first != today)) unrecovered = true;
       }
     }
@@ -580,18 +725,24 @@ struct Case
     std::ostringstream op;
     op << "start " << c.limit << " " << c.maxb << " " << (c.ow ? 1 : 0) << " " << c.mode << " " << (c.clean ? 1 : 0) << " " << c.freq
        << " " << c.iv << " " << c.hh << " " << c.mm << " " << c.ts << " " << offset_at(c.ts) << " sp=" << c.spell;
+    if (scheme != scheme0 || mixed) op << " sch=" << scheme;
     auto v = list_dir();
     stale.clear();
     if (c.mode == 'w')
-      for (auto const& f : v) if (is_family(f.name) && f.name != "log.log") stale[f.name] = ids_string(f);
+      for (auto const& f : v) if (is_family(f.name) && f.name != abase) stale[f.name] = ids_string(f);
     if (threw || !sink) { out << op.str() << " => threw | " << listing_string(v) << "\n"; return; }
     // the current file as the new process sees it: opened now
     for (auto const& f : v)
-      if (f.name == "log.log" && !f.ids.empty()) open_ts_of_first[f.ids.front()] = c.ts;
+      if (f.name == abase && !f.ids.empty()) open_ts_of_first[f.ids.front()] = c.ts;
     emit(op.str(), v);
     (void)rotated_before;
     overstart = count_rotated(v) > c.maxb;
-    check_c14(v, count_rotated(v), false, 0, false);
+    if (c.mode == 'a' && run > 1 && count_family(before) > c.maxb)
+    {
+      ++g_stats["append_restart_over_more_files_than_limit"];
+      if (!c.ow) ++g_stats["append_restart_over_more_files_than_limit_overwrite_off"];
+    }
+    check_c14(v, count_rotated(v), false, 0, false, c.mode == 'a' ? &before : nullptr);
   }
 
   void do_write(uint64_t size, uint64_t ts)
@@ -607,7 +758,7 @@ struct Case
     auto const before = list_dir();
     uint64_t const rotated_before = count_rotated(before);
     FileView cur_before;
-    for (auto const& f : before) if (f.name == "log.log") cur_before = f;
+    for (auto const& f : before) if (f.name == abase) cur_before = f;
     if (ts < max_ts) nonmono = true;
     max_ts = std::max(max_ts, ts);
     recs[idn] = Rec{size, ts, run};
@@ -615,8 +766,18 @@ struct Case
     bool threw = false;
     try
     {
-      sink->write_log(nullptr, ts, "", "", "", "", LogLevel::Info, "", "", nullptr, text, text);
-      sink->flush_sink();
+      if (jsink)
+      {
+        fmts.push_back(std::make_unique<std::string>(text.substr(0, text.size() - 1)));
+        MacroMetadata const md{"h3_rot.cpp:1", "w", fmts.back()->c_str(), nullptr, LogLevel::Info, MacroMetadata::Event::Log};
+        jsink->write_log(&md, ts, "1", "t", "1", "root", LogLevel::Info, "INFO", "I", nullptr, text, text);
+        jsink->flush_sink();
+      }
+      else
+      {
+        fsink->write_log(nullptr, ts, "", "", "", "", LogLevel::Info, "", "", nullptr, text, text);
+        fsink->flush_sink();
+      }
     }
     catch (std::exception const& e)
     {
@@ -629,14 +790,14 @@ struct Case
     emit(op.str(), v);
     if (threw) return;
     FileView cur_after;
-    for (auto const& f : v) if (f.name == "log.log") cur_after = f;
+    for (auto const& f : v) if (f.name == abase) cur_after = f;
     bool const rotated = !cur_before.ids.empty() && cur_after.ids.size() == 1 && cur_after.ids[0] == idn;
     if (rotated) { cur_open_ts = ts; ++g_stats["rotations_observed"]; }
     if (cur_after.ids.size() >= 1 && cur_after.ids[0] == idn) open_ts_of_first[idn] = cur_open_ts;
-    check_c14(v, rotated_before, true, idn, rotated);
-    check_suffixes(v);
+    check_c14(v, rotated_before, true, idn, rotated, &before);
+    if (!mixed) check_suffixes(v);
     // ---- C15: the schedule ----
-    if (cfg.freq != 'N' && !nonmono)
+    if (cfg.freq != 'N' && !nonmono && sinkk == 'F')
     {
       int64_t const start_s = static_cast<int64_t>(cfg.ts / NS);
       bool const stopped_excuse = (cfg.ow == false && count_family(before) >= cfg.maxb);
@@ -651,7 +812,7 @@ struct Case
         bool const a_before = (ra.run != run) || (ra.ts < static_cast<uint64_t>(g) * NS);
         if (g >= 0 && a_before && static_cast<uint64_t>(g) * NS <= ts && !stopped_excuse)
           oracle(off_min != off_max ? "dst-drift" : "time-merge",
-                 "id=" + std::to_string(idn) + " ts=" + std::to_string(ts) + " shares log.log with id=" + std::to_string(a) +
+                 "id=" + std::to_string(idn) + " ts=" + std::to_string(ts) + " shares the current file with id=" + std::to_string(a) +
                    " although the schedule has the point " + std::to_string(g) + "s between them");
       }
       if (rotated)
@@ -671,9 +832,9 @@ struct Case
       // _next_rotation_time = first point of the schedule strictly after every record of this run
       uint64_t const m = run_has_ts ? std::max(run_max_ts, ts) : ts;
       int64_t const g = grid_after(start_s, static_cast<int64_t>(m / NS));
-      if (g >= 0 && sink->_next_rotation_time != static_cast<uint64_t>(g) * NS)
+      if (g >= 0 && view().next != static_cast<uint64_t>(g) * NS)
         oracle(off_min != off_max ? "dst-drift" : "grid",
-               "_next_rotation_time=" + std::to_string(sink->_next_rotation_time) + " but the first point of the schedule after the records so far is " +
+               "_next_rotation_time=" + std::to_string(view().next) + " but the first point of the schedule after the records so far is " +
                  std::to_string(g) + "s");
     }
     run_max_ts = run_has_ts ? std::max(run_max_ts, ts) : ts;
@@ -708,7 +869,8 @@ struct Case
 
   void begin(std::string const& id_, char scheme_, std::string const& kind_, std::string const& tz_)
   {
-    id = id_; scheme = scheme_; kind = kind_; tz = tz_;
+    id = id_; scheme = scheme_; scheme0 = scheme_; kind = kind_; tz = tz_;
+    set_base(bname);
     gmt = (tz == "UTC");
     if (gmt) unsetenv("TZ"); else setenv("TZ", tz.c_str(), 1);
     tzset();
@@ -722,7 +884,12 @@ struct Case
     remove_dir();
     bool const dst = off_min != off_max;
     if (dst) ++g_stats["dst_cases"];
-    std::cout << "case " << id << " " << scheme << " dst=" << (dst ? 1 : 0) << " " << kind << " tz=" << tz << "\n" << out.str();
+    std::cout << "case " << id << " " << scheme0 << " dst=" << (dst ? 1 : 0) << " " << kind << " tz=" << tz;
+    if (bname != "log.log") std::cout << " base=" << bname;
+    if (sinkk != 'F') std::cout << " sink=" << sinkk;
+    if (base_class() == "numstem") std::cout << " oo=numstem"; // oracle only: the model's scan does not parse the current file
+    if (fa != 'N') std::cout << " fa=" << fa;
+    std::cout << "\n" << out.str();
   }
 };
 
@@ -809,7 +976,7 @@ static StartCfg gen_cfg(Rng& rng, bool want_size, bool want_time)
 static uint64_t gen_size(Case& c, Rng& rng)
 {
   uint64_t const limit = c.cfg.limit;
-  uint64_t const fsz = c.sink ? c.sink->_file_size : 0;
+  uint64_t const fsz = c.sink ? c.view().fsz : 0;
   if (limit == 0)
   {
     uint64_t const s[] = {1, 8, 40, 100};
@@ -842,7 +1009,7 @@ static uint64_t period_ns(StartCfg const& c)
 static uint64_t gen_ts_time(Case& c, Rng& rng, uint64_t last)
 {
   // around _next_rotation_time, never going back
-  uint64_t const n = c.sink->_next_rotation_time;
+  uint64_t const n = c.view().next;
   uint64_t const p = period_ns(c.cfg);
   uint64_t t;
   switch (rng.below(12))
@@ -910,7 +1077,73 @@ static int gen_spell(Rng& srng)
   return 1 + static_cast<int>(srng.below(N_SPELL - 1));
 }
 
-static void gen_case(Rng& rng, std::string const& id, unsigned nops, bool c15, uint64_t spell_seed)
+// Directed restarts that CHANGE the configuration over a directory that already holds more rotated files than the new
+// max_backup_files: phase 1 fills the directory (large or no backup limit), phase 2 restarts in append mode with a lowered
+// limit and (mostly) overwrite_rolled_files off — "rotation stops and nothing is deleted" —, phase 3 flips the overwrite
+// flag (the excess is deleted by the first rotation that takes place), phase 4 changes open mode / limit / backup count
+// again; the random tail follows in gen_case.
+static uint64_t gen_cfgchg_prefix(Case& c, Rng& rng, Rng& srng, StartCfg& cfg)
+{
+  uint64_t const limits[] = {512, 600, 777};
+  cfg = StartCfg{};
+  cfg.limit = rng.pick(limits);
+  uint64_t const big[] = {4294967295ull, 4294967295ull, 6, 5};
+  cfg.maxb = rng.pick(big);
+  cfg.ow = rng.chance(50);
+  cfg.mode = rng.chance(50) ? 'a' : 'w';
+  cfg.clean = rng.chance(70);
+  cfg.ts = (19358 + rng.below(730)) * 86400ull * NS + rng.below(3600) * NS; // early in the day: the case stays on one civil day
+  cfg.spell = gen_spell(srng);
+  c.do_start(cfg);
+  uint64_t last = cfg.ts;
+  unsigned const fill = 3 + static_cast<unsigned>(rng.below(3));
+  auto burst = [&](unsigned n) {
+    for (unsigned i = 0; i < n && c.sink; ++i)
+    {
+      uint64_t const size = rng.chance(70) ? cfg.limit / 2 + 10 + rng.below(cfg.limit / 3) : gen_size(c, rng);
+      last += 1 + rng.below(5 * NS);
+      c.do_write(size, last);
+    }
+  };
+  burst(2 * fill + 1); // every second write rotates: `fill` rotated files
+  // phase 2: lowered limit, overwrite mostly off
+  cfg.mode = 'a';
+  uint64_t const low[] = {0, 1, 1, 2, 2};
+  cfg.maxb = rng.pick(low);
+  cfg.ow = rng.chance(25);
+  if (rng.chance(30)) cfg.limit = rng.pick(limits);
+  last += rng.below(100 * NS);
+  cfg.ts = last;
+  cfg.spell = gen_spell(srng);
+  c.do_start(cfg);
+  burst(3 + static_cast<unsigned>(rng.below(3)));
+  // phase 3: the overwrite flag flips
+  cfg.ow = !cfg.ow;
+  if (rng.chance(30)) cfg.maxb = rng.pick(low);
+  last += rng.below(100 * NS);
+  cfg.ts = last;
+  cfg.spell = gen_spell(srng);
+  c.do_start(cfg);
+  burst(4 + static_cast<unsigned>(rng.below(3)));
+  // phase 4: other open mode / backup count
+  if (rng.chance(50))
+  {
+    cfg.mode = rng.chance(50) ? 'w' : 'a';
+    cfg.clean = rng.chance(60);
+    cfg.maxb = rng.chance(50) ? 3 : 0;
+    cfg.ow = rng.chance(50);
+    last += rng.below(100 * NS);
+    cfg.ts = last;
+    cfg.spell = gen_spell(srng);
+    c.do_start(cfg);
+    burst(3);
+  }
+  return last;
+}
+
+static char const* const BASES[] = {"noext", ".log", "trail.", "a.b.log", "log.tar.gz", "x.y1.log", "noext", "a.b.log"};
+
+static void gen_case(Rng& rng, std::string const& id, unsigned nops, bool c15, uint64_t spell_seed, unsigned variant = 0)
 {
   Case c;
   Rng srng(spell_seed);
@@ -929,6 +1162,17 @@ static void gen_case(Rng& rng, std::string const& id, unsigned nops, bool c15, u
     kind = "size";
     if (scheme != 'I' && rng.chance(25)) { nonmono = true; kind = "size-nonmono"; }
     if (scheme != 'I' && rng.chance(20)) tz = ZONES[rng.below(2)];
+    // variants (chosen by the case number, so that every quick run has them): configuration-changing restarts, other base
+    // file names, the JSON sink, a filename append option, a naming-scheme change
+    switch (variant)
+    {
+    case 1: kind = "size-cfgchg"; nonmono = false; tz = "UTC"; scheme = rng.chance(70) ? 'I' : 'D'; break;
+    case 2: kind = "size-base"; nonmono = false; c.bname = BASES[rng.below(8)]; break;
+    case 3: kind = "size-json"; nonmono = false; c.sinkk = 'J'; break;
+    case 4: kind = "size-fa"; nonmono = false; { char const f[] = {'D', 'D', 'T', 'C'}; c.fa = rng.pick(f); } break;
+    case 5: kind = "size-resch"; nonmono = false; break;
+    default: break;
+    }
   }
   else
   {
@@ -949,9 +1193,14 @@ static void gen_case(Rng& rng, std::string const& id, unsigned nops, bool c15, u
   }
   if (rng.chance(50)) { cfg.mode = rng.chance(50) ? 'a' : 'w'; }
   cfg.spell = gen_spell(srng);
-  c.do_start(cfg);
-  uint64_t last = cfg.ts;
-  for (unsigned i = 0; i < nops && c.sink; ++i)
+  uint64_t last;
+  if (variant == 1) last = gen_cfgchg_prefix(c, rng, srng, cfg);
+  else
+  {
+    c.do_start(cfg);
+    last = cfg.ts;
+  }
+  for (unsigned i = variant == 1 ? nops / 2 : 0; i < nops && c.sink; ++i)
   {
     unsigned const r = static_cast<unsigned>(rng.below(100));
     if (r < 7)
@@ -974,6 +1223,8 @@ static void gen_case(Rng& rng, std::string const& id, unsigned nops, bool c15, u
       if (nonmono && rng.chance(30)) st = last > DAY ? last - rng.below(DAY) : last;
       n.ts = st;
       n.spell = gen_spell(srng); // independently of the spelling of the earlier starts
+      n.scheme = 0;
+      if (variant == 5 && rng.chance(60)) { char const sc[] = {'I', 'D', 'T'}; n.scheme = rng.pick(sc); }
       cfg = n;
       c.do_start(cfg);
       last = std::max(last, st);
@@ -1023,8 +1274,19 @@ int main(int argc, char** argv)
     Rng rng(seed * 2 + (c15 ? 1 : 0));
     gen_cfg_probes("s" + std::to_string(seed) + "cfg");
     for (unsigned i = 0; i < cases; ++i)
+    {
+      // C14: of every 9 cases, 2 restart with changed configurations over a full directory, 1 uses another base name and
+      // 1 is the JSON sink / a filename append option / a naming-scheme change in turn
+      unsigned variant = 0;
+      if (!c15)
+      {
+        if (i % 9 == 2 || i % 9 == 7) variant = 1;
+        else if (i % 9 == 4) variant = 2;
+        else if (i % 9 == 6) variant = 3 + (i / 9) % 3;
+      }
       gen_case(rng, "s" + std::to_string(seed) + (c15 ? "t" : "z") + std::to_string(i), nops, c15,
-               (seed * 1000003ull + i) * 2 + (c15 ? 1 : 0) + 0x5350454cull);
+               (seed * 1000003ull + i) * 2 + (c15 ? 1 : 0) + 0x5350454cull, variant);
+    }
     print_tail();
     return g_oracle_hits ? 3 : 0;
   }
@@ -1045,6 +1307,12 @@ int main(int argc, char** argv)
         c = std::make_unique<Case>();
         std::string tz = "UTC";
         if (w.size() >= 6 && w[5].compare(0, 3, "tz=") == 0) tz = w[5].substr(3);
+        for (size_t k = 6; k < w.size(); ++k)
+        {
+          if (w[k].compare(0, 5, "base=") == 0) c->bname = w[k].substr(5);
+          else if (w[k].compare(0, 5, "sink=") == 0) c->sinkk = w[k][5];
+          else if (w[k].compare(0, 3, "fa=") == 0) c->fa = w[k][3];
+        }
         c->begin(w[1], w[2][0], w[4], tz);
       }
       else if (!c) continue;
@@ -1063,6 +1331,7 @@ int main(int argc, char** argv)
             int const v = std::atoi(w[k].c_str() + 3);
             s.spell = (v >= 0 && v < N_SPELL) ? v : 0;
           }
+          else if (w[k].compare(0, 4, "sch=") == 0) s.scheme = w[k][4];
         c->do_start(s);
       }
       else if (w[0] == "w" && w.size() >= 4)
